@@ -125,3 +125,13 @@ MUTS += [
   "old": "        if addr_size_32 {\n            addr &= 0xffff_ffff;\n        }",
   "new": "        if addr_size_32 {\n            addr = addr as u32 as i32 as i64 as u64;\n        }"},
 ]
+
+MUTS += [
+ # ---- session 4: index-only 32-bit addressing; size limit bypassed for file-less segments --------
+ {"name": "M34-a32-detected-by-base-only", "breaks": "C05", "file": "src/helpers/operand.rs", "checks": ["C05"],
+  "old": "        let addr_size_32 = base.map_or(false, is_32bit) || index.map_or(false, is_32bit);",
+  "new": "        let addr_size_32 = base.map_or(false, is_32bit);"},
+ {"name": "M35-elf-memsz-limit-only-with-file-bytes", "breaks": "C16", "file": "src/elf/elf.rs", "checks": ["C16"],
+  "old": "                        Some(end) if segment.p_memsz <= MAX_SEGMENT_SIZE => {",
+  "new": "                        Some(end) if segment.p_memsz <= MAX_SEGMENT_SIZE || segment.p_filesz == 0 => {"},
+]
